@@ -44,6 +44,7 @@ MCOps == LET s == EnvSet("VERIF_OPS") IN
          ELSE IF s = "foreign" THEN {"loadf", "mul", "div"}
          ELSE IF s = "foreignq" THEN {"loadf"}
          ELSE IF s = "roots" THEN {"div", "pow", "root"}
+         ELSE IF s = "ratio" THEN {"pow", "as_ratio"}
          ELSE IF s = "touch" THEN {"mul", "div", "pow", "root", "as_ratio", "render", "touch"}
          ELSE {"mul", "div", "pow", "root", "pmul", "as_ratio", "quantify", "render"}
 MCShipped == LET s == EnvSet("VERIF_SHIPPED") IN
